@@ -120,6 +120,10 @@ func RemoveDuplicateEntries(entries []string, allAlias string) (res []string) {
 
 func (user *User) UpdateUser(cmd []string) error {
 	for _, str := range cmd {
+		// An empty rule has nothing to parse.
+		if str == "" {
+			continue
+		}
 		// Parse enabled
 		if strings.EqualFold(str, "on") {
 			user.Enabled = true
